@@ -179,6 +179,8 @@ def random_config(rng):
                     'NumericTuple', 'XYCoordinates', 'Range', 'DateRange', 'CalendarDateRange', 'List', 'HookList', 'Dict',
                     'Callable', 'Color', 'Selector', 'ListSelector', 'ClassSelector'])
     cfg = dict(allow_None=rng.random() < 0.4)
+    if rng.random() < 0.2:
+        cfg['constant'] = True      # constants are still validated on the routes that may set them
     extra = []
     if t in ('String', 'Bytes'):
         rx = rng.choice([None, '^a', 'a.c', r'\d+$', '^$'])
@@ -311,6 +313,8 @@ def config_class(t, cfg):
         if k == 'allow_None':
             if v:
                 parts.append('None')
+        elif k == 'constant':
+            parts.append('constant')
         elif k == 'bounds' and v is not None:
             parts.append(f'b{int(v[0] is not None)}{int(v[1] is not None)}')
         elif k == 'inclusive_bounds':
@@ -379,6 +383,8 @@ def run_case(idx, rng, P, rep):
                         continue      # this candidate cannot be expressed through JSON for this type
                 except Exception:   # noqa: BLE001
                     continue
+            if cfg.get('constant') and route in ('inst', 'update'):
+                continue          # not assignable on an instance at all (C14's business)
             K = base_cls
             if fresh_needed or route == 'cls':
                 K = type(f'V{idx}_x', (param.Parameterized,), {'p': declare(param, t, cfg, default)})
